@@ -220,6 +220,23 @@ def add_name_clashes(rng, spec, names):
     return spec, names
 
 
+def prefix_names(rng, spec, names):
+    """rename the targets of some edges so that the DEPENDANT's name is a proper prefix of its target's name (N3 -> N3Item): the
+    dependant's reference path is then a substring of the target's"""
+    names = list(names)
+    edges = [(i, t) for i, nd in enumerate(spec) for _, t in nd.get("edges", []) if isinstance(t, int) and t != i and t < len(names)]
+    rng.shuffle(edges)
+    done = set()
+    for i, t in edges[:3]:
+        if t in done or i in done:
+            continue
+        cand = names[i] + rng.choice(["Item", "x", "2"])
+        if cand not in names:
+            names[t] = cand
+            done.add(t)
+    return names
+
+
 def random_names(rng, n):
     """mostly N<i>; sometimes two names whose class names coincide (n0 / N0) or that collide with a minted inline class name"""
     names = [name_of(i) for i in range(n)]
